@@ -52,23 +52,28 @@ func count(outs []rig.Out, ty string) int {
 }
 
 type scenario struct {
-	role     rig.Role
-	variant  string // peer-logout | local-logout | stop-answered | stop-unanswered
-	closeTO  time.Duration
-	pre      int  // valid inbound messages before the action
-	between  int  // other inbound messages between the local action and the peer's answer
-	appEvent bool // application registered an EventLogout handler before the action
+	role         rig.Role
+	variant      string // peer-logout | local-logout | stop-answered | stop-unanswered
+	closeTO      time.Duration
+	pre          int  // valid inbound messages before the action
+	between      int  // other inbound messages between the local action and the peer's answer
+	appEvent     bool // application registered an EventLogout handler before the action
+	probePending bool // N=1 and 2.3 s of silence first: the session's own TestRequest is pending when the application acts
 }
 
 func (s scenario) String() string {
-	return fmt.Sprintf("%s %s closeTimeout=%v pre=%d between=%d appLogoutHandler=%v", s.role, s.variant, s.closeTO, s.pre, s.between, s.appEvent)
+	return fmt.Sprintf("%s %s closeTimeout=%v pre=%d between=%d appLogoutHandler=%v ownTestRequestPending=%v", s.role, s.variant, s.closeTO, s.pre, s.between, s.appEvent, s.probePending)
 }
 
 func run(c *vk.Ctx, sc scenario, idx int) {
 	desc := sc.String()
 	replay := map[string]interface{}{"scenario": desc, "index": idx, "seed": c.Seed}
 	var appLogout int32
-	r, err := rig.NewStepRig(rig.StepCfg{Role: sc.role, HeartBtInt: 30, Limits: &session.IntLimits{Min: 5, Max: 60}, CloseTimeout: sc.closeTO,
+	hbInt, lims := 30, &session.IntLimits{Min: 5, Max: 60}
+	if sc.probePending {
+		hbInt, lims = 1, &session.IntLimits{Min: 1, Max: 60}
+	}
+	r, err := rig.NewStepRig(rig.StepCfg{Role: sc.role, HeartBtInt: hbInt, Limits: lims, CloseTimeout: sc.closeTO,
 		AfterRun: func(h *simplefixgo.DefaultHandler, s *session.Session) {
 			if sc.appEvent {
 				s.OnChangeState(utils.EventLogout, func() bool { atomic.AddInt32(&appLogout, 1); return true })
@@ -80,7 +85,7 @@ func run(c *vk.Ctx, sc scenario, idx int) {
 	}
 	defer r.Close()
 	p := rig.NewPeer()
-	if res := r.Inbound(p.Logon(30, "0")); !res.Logged {
+	if res := r.Inbound(p.Logon(hbInt, "0")); !res.Logged {
 		c.Inconclusive("no logon: " + desc)
 		return
 	}
@@ -93,6 +98,22 @@ func run(c *vk.Ctx, sc scenario, idx int) {
 	}
 	nontrivial := true
 	defer func() { c.Eval(vk.Hash64([]byte(desc)), nontrivial) }()
+	if sc.probePending {
+		// the peer has been silent for N+1 s: the session's own TestRequest is out when the application acts
+		time.Sleep(2300 * time.Millisecond)
+		own := 0
+		for _, o := range r.AllOuts() {
+			if o.Type == "1" {
+				own++
+			}
+		}
+		if own == 0 {
+			c.Count("scenarios_without_own_testrequest", 1)
+			nontrivial = false
+			return
+		}
+		c.Count("actions_while_own_testrequest_pending", 1)
+	}
 	c.SetAdd("variants", sc.variant+"/"+sc.role.String())
 	switch sc.variant {
 	case "peer-logout":
@@ -229,7 +250,7 @@ func run(c *vk.Ctx, sc scenario, idx int) {
 
 func main() {
 	c := vk.Init("C15")
-	c.Rule("scenarios: role x variant {peer Logout while logged on (then a repeated one); local Logout() then the peer's answer after 0..3 other inbound messages; Stop() answered immediately / after other inbound messages; Stop() never answered} x close timeout {2s,5s} for answered and {0,50ms,300ms,2s} for unanswered x 0..3 messages before x application EventLogout handler registered before the action or not. Oracle: Logout count on Outgoing() per step, IsLogged, EventLogout, and Context().Done(): within 250 ms (+3x measured scheduler jitter) after the answer's step completed — an order of magnitude below the deadline so the deadline path cannot pass for the answer path — resp. no later than closeTimeout + 300 ms (+jitter) when unanswered. distinct = scenario tuple; non-trivial = all but those where the deadline beat the scripted answer")
+	c.Rule("scenarios: role x variant {peer Logout while logged on (then a repeated one); local Logout() then the peer's answer after 0..3 other inbound messages; Stop() answered immediately / after other inbound messages; Stop() never answered; Stop()/Logout() issued while the session's own TestRequest is pending (N=1, 2.3 s of silence)} x close timeout {2s,5s} for answered and {0,50ms,300ms,2s} for unanswered x 0..3 messages before x application EventLogout handler registered before the action or not. Oracle: Logout count on Outgoing() per step, IsLogged, EventLogout, and Context().Done(): within 250 ms (+3x measured scheduler jitter) after the answer's step completed — an order of magnitude below the deadline so the deadline path cannot pass for the answer path — resp. no later than closeTimeout + 300 ms (+jitter) when unanswered. distinct = scenario tuple; non-trivial = all but those where the deadline beat the scripted answer")
 	c.Assume("wall clock is used only for the two bounds the statement itself gives (as soon as the answer arrives / at the latest at the close timeout); a jitter canary turns overloaded runs into inconclusive")
 	stop := make(chan struct{})
 	go canary(stop)
@@ -237,18 +258,22 @@ func main() {
 	for _, role := range []rig.Role{rig.Acceptor, rig.Initiator} {
 		for pre := 0; pre <= c.Pick(1, 3); pre++ {
 			for _, app := range []bool{false, true} {
-				scs = append(scs, scenario{role, "peer-logout", time.Second, pre, 0, app})
+				scs = append(scs, scenario{role, "peer-logout", time.Second, pre, 0, app, false})
 				for between := 0; between <= c.Pick(1, 3); between++ {
-					scs = append(scs, scenario{role, "local-logout", time.Second, pre, between, app})
+					scs = append(scs, scenario{role, "local-logout", time.Second, pre, between, app, false})
 					for _, to := range []time.Duration{2 * time.Second, 5 * time.Second} {
-						scs = append(scs, scenario{role, "stop-answered", to, pre, between, app})
+						scs = append(scs, scenario{role, "stop-answered", to, pre, between, app, false})
 					}
 				}
 				for _, to := range []time.Duration{0, 50 * time.Millisecond, 300 * time.Millisecond, 2 * time.Second} {
-					scs = append(scs, scenario{role, "stop-unanswered", to, pre, 0, app})
+					scs = append(scs, scenario{role, "stop-unanswered", to, pre, 0, app, false})
 				}
 			}
 		}
+	}
+	for _, role := range []rig.Role{rig.Acceptor, rig.Initiator} {
+		scs = append(scs, scenario{role: role, variant: "stop-answered", closeTO: 5 * time.Second, probePending: true})
+		scs = append(scs, scenario{role: role, variant: "local-logout", closeTO: time.Second, probePending: true, appEvent: true})
 	}
 	var wg sync.WaitGroup
 	sem := make(chan struct{}, 24)
